@@ -449,6 +449,35 @@ pub fn run(cfg: &Cfg, rep: &mut Report) {
         ] {
             bad.push(extra.to_string());
         }
+        // UCD aliases and properties that ECMAScript does not admit (PropertyAliases.txt short names
+        // of non-ES properties, and extra aliases of ES properties such as WSpace for White_Space)
+        for extra in [
+            "WSpace", "wspace", "W_Space", "WS", "Comp_Ex", "CE", "XO_NFC", "XO_NFD", "XO_NFKC", "XO_NFKD", "OAlpha", "ODI", "OGr_Ext", "OIDC", "OIDS", "OLower", "OMath", "OUpper", "PCM", "Gr_Link", "IDSU", "ID_Compat_Math_Start", "EqUIdeo", "kEH_NoRotate",
+            "NFC_QC", "NFD_QC", "NFKC_QC", "NFKD_QC", "NFKC_CF", "NFKC_SCF", "IDNA", "InSC", "InPC", "jg", "jt", "lb", "nt", "nv", "bpb", "bpt", "bmg", "cf", "cjkAccountingNumeric", "dm", "dt", "ea", "GCB", "hst", "isc", "JSN", "lc", "scf", "slc", "stc", "suc", "tc", "uc", "SB", "WB", "vo", "age", "blk", "ccc", "na", "na1",
+            "Lowercase_Letter_", "L_", "Latin1", "ASCII_", "Any_", "Hex_", "Ext_", "Radical_", "Upper_", "Lower_", "Alpha_", "space_", "Space", "SPACE", "White_space", "white_space", "Whitespace", "WhiteSpace",
+        ] {
+            bad.push(extra.to_string());
+        }
+        // abbreviations derived from the ES names that happen to be real Unicode property names or
+        // aliases (regex-syntax accepts them under loose matching) but are not in the ES tables
+        let mut derived: Vec<String> = Vec::new();
+        for (long, _) in props::BINARY {
+            let words: Vec<&str> = long.split('_').collect();
+            if words.len() >= 2 {
+                let initials: String = words.iter().map(|w| w.chars().next().unwrap()).collect();
+                derived.push(initials.clone());
+                derived.push(format!("{}{}", words[0].chars().next().unwrap(), words[1..].join("")));
+                derived.push(format!("{}_{}", words[0].chars().next().unwrap(), words[1..].join("_")));
+                derived.push(format!("{}{}", &words[0][..words[0].len().min(2)], words[1..].iter().map(|w| w.chars().next().unwrap()).collect::<String>()));
+            }
+            derived.push(long.chars().take(3).collect());
+            derived.push(long.chars().take(4).collect());
+        }
+        for d in derived {
+            if uniref::rs16_class(&format!("\\p{{{}}}", d).replace("\\\\", "\\")).is_some() {
+                bad.push(d);
+            }
+        }
         bad.sort();
         bad.dedup();
         for b in &bad {
